@@ -77,6 +77,10 @@ CHECKS = {
    "Taps what tonic's client and server bodies put on the wire for all four call shapes, every compression setting and the OK / handler-error / source-error / encode-failure outcomes, polls both bodies beyond their end, and has two judges that share no code with tonic decide conformance: a reference parser in the harness and oracle_py/wirecheck.py re-judging the recorded JSONL wire log with Python's zlib/gzip and the zstd CLI.",
    "Held on the executions produced; HTTP/2 pseudo-headers and END_STREAM flags are below the tapped boundary in the quick tier (hyper/h2 produce them).",
    "runtime monitoring: wire taps + two independent decoders (Rust reference parser, offline Python judge over the recorded log)", "DESIGN.md#c03"),
+ "C15": ("fault_enumeration",
+   "Enumerates the whole TLS configuration matrix (864 cells + https-without-TLS cases) on every run with real rustls handshakes between the real Endpoint/ClientTlsConfig and either tonic's own Server::tls_config or a harness acceptor with a chosen ALPN, over the in-memory pipe; a decision table written from the property text predicts success, a handler counter and a byte tap of the client's first bytes observe leakage, and the handler reports Request::peer_certs().",
+   "Exhaustive over the stated matrix, not over certificates (one PKI under fixtures/pki, 2020-2120); for the ALPN none/http1.1 rows the server-side TLS is the harness's rustls configuration (tonic's server always offers h2).",
+   "runtime monitoring: exhaustive configuration matrix + decision-table oracle + wire tap", "DESIGN.md#c15"),
 }
 
 NOT_YET = {}
